@@ -1248,4 +1248,207 @@ theorem release_frame {h : Heap D} {X : List (Ref D)} (r : Ref D) (hw : WF h (r 
         exact ⟨_, hcell, hz'⟩
     · exact hu1
 
+
+/-! ### (re-)parse as an abstract build: reuse = retain, everything else is fresh -/
+
+theorem ext_isSome {h h' : Heap D} (he : Ext h h') {i : Nat} (hl : (cellAt h i).isSome = true) :
+    (cellAt h' i).isSome = true := by
+  cases hc : cellAt h i with
+  | none => rw [hc] at hl; cases hl
+  | some c => obtain ⟨c', hc', _, _⟩ := he i c hc; rw [hc']; rfl
+
+mutual
+  theorem reusedLive_ext {h h' : Heap D} (he : Ext h h') : ∀ (s : BuildSpec D), reusedLive h s = true → reusedLive h' s = true
+    | .reuse (.ptr i), hl => by unfold reusedLive at hl ⊢; exact ext_isSome he hl
+    | .reuse (.inl _), _ => by unfold reusedLive; rfl
+    | .leaf _, _ => by unfold reusedLive; rfl
+    | .node _ specs, hl => by unfold reusedLive at hl ⊢; exact reusedLiveL_ext he specs hl
+  theorem reusedLiveL_ext {h h' : Heap D} (he : Ext h h') : ∀ (ss : List (BuildSpec D)), reusedLiveL h ss = true → reusedLiveL h' ss = true
+    | [], _ => by unfold reusedLiveL; rfl
+    | s :: ss, hl => by
+      unfold reusedLiveL at hl ⊢
+      simp only [Bool.and_eq_true] at hl ⊢
+      exact ⟨reusedLive_ext he s hl.1, reusedLiveL_ext he ss hl.2⟩
+end
+
+mutual
+  /-- The ownership contract of a build: the caller gets one owned reference; every other owner's
+  counts stay exact, every existing cell keeps its children and payload, no freed id is reused. -/
+  theorem build_ok : ∀ (spec : BuildSpec D) (h : Heap D) (X : List (Ref D)), WF h X → reusedLive h spec = true →
+      WF (build h spec).1 ((build h spec).2 :: X) ∧ Ext h (build h spec).1 ∧ DeadMono h (build h spec).1
+    | .reuse r, h, X, hw, hl => by
+      unfold build
+      refine ⟨retain_wf r hw ?_, ext_retain h r, deadMono_retain h r⟩
+      intro id hid
+      subst hid
+      unfold reusedLive at hl
+      cases hc : cellAt h id with
+      | none => rw [hc] at hl; cases hl
+      | some c => exact ⟨c, rfl⟩
+    | .leaf d, h, X, hw, _ => by
+      unfold build
+      exact ⟨(wf_inl_cons d).mpr hw, Ext.refl h, DeadMono.refl h⟩
+    | .node d specs, h, X, hw, hl => by
+      unfold reusedLive at hl
+      have ih := buildKids_ok specs h X hw hl
+      unfold build
+      simp only
+      exact ⟨alloc_wf _ d ih.1, ih.2.1.trans (ext_append _ _), ih.2.2.trans (deadMono_append _ _)⟩
+  theorem buildKids_ok : ∀ (specs : List (BuildSpec D)) (h : Heap D) (X : List (Ref D)), WF h X →
+      reusedLiveL h specs = true →
+      WF (buildKids h specs).1 ((buildKids h specs).2 ++ X) ∧ Ext h (buildKids h specs).1 ∧
+        DeadMono h (buildKids h specs).1
+    | [], h, X, hw, _ => by
+      unfold buildKids
+      exact ⟨hw, Ext.refl h, DeadMono.refl h⟩
+    | s :: ss, h, X, hw, hl => by
+      unfold reusedLiveL at hl
+      simp only [Bool.and_eq_true] at hl
+      have h1 := build_ok s h X hw hl.1
+      have hl2 := reusedLiveL_ext h1.2.1 ss hl.2
+      have h2 := buildKids_ok ss (build h s).1 ((build h s).2 :: X) h1.1 hl2
+      unfold buildKids
+      simp only
+      refine ⟨wf_perm h2.1 (fun a => ?_), h1.2.1.trans h2.2.1, h1.2.2.trans h2.2.2⟩
+      simp only [List.cons_append, cnt_append]
+      rw [cnt_cons a (build h s).2 X, cnt_cons a (build h s).2 (_ ++ X), cnt_append]
+      omega
+end
+
+
+mutual
+  /-- Whatever is built, existing cells keep their children and payload (no invariant needed). -/
+  theorem build_ext : ∀ (spec : BuildSpec D) (h : Heap D), Ext h (build h spec).1
+    | .reuse r, h => by unfold build; exact ext_retain h r
+    | .leaf d, h => by unfold build; exact Ext.refl h
+    | .node d specs, h => by
+      unfold build
+      simp only
+      exact (buildKids_ext specs h).trans (ext_append _ _)
+  theorem buildKids_ext : ∀ (specs : List (BuildSpec D)) (h : Heap D), Ext h (buildKids h specs).1
+    | [], h => by unfold buildKids; exact Ext.refl h
+    | s :: ss, h => by
+      unfold buildKids
+      simp only
+      exact (build_ext s h).trans (buildKids_ext ss _)
+end
+
+
+/-! ### atomic count updates of different threads commute: no update is lost -/
+
+theorem incsOf_cons (i : Nat) (a : Acc) (accs : List Acc) :
+    incsOf i (a :: accs) = (if a = .inc i then 1 else 0) + incsOf i accs := by
+  unfold incsOf
+  by_cases h : a = .inc i
+  · subst h; simp [List.filter_cons]; omega
+  · have : (a == Acc.inc i) = false := by simpa using h
+    simp [List.filter_cons, this, h]
+
+theorem decsOf_cons (i : Nat) (a : Acc) (accs : List Acc) :
+    decsOf i (a :: accs) = (if a = .dec i then 1 else 0) + decsOf i accs := by
+  unfold decsOf
+  by_cases h : a = .dec i
+  · subst h; simp [List.filter_cons]; omega
+  · have : (a == Acc.dec i) = false := by simpa using h
+    simp [List.filter_cons, this, h]
+
+/-- `no_lost_update`: after **any** sequence of atomic increments/decrements of live cells in which
+no count is driven below zero, every count is `initial + #increments − #decrements`, and nothing
+else about any cell changes.  The right-hand side does not depend on the order of the accesses. -/
+theorem no_lost_update : ∀ (accs : List Acc) (h : Heap D),
+    (∀ a, a ∈ accs → (cellAt h a.id).isSome = true) → (∀ i, decsOf i accs ≤ rcOf h i) →
+    (∀ i, rcOf (applyAll h accs) i + decsOf i accs = rcOf h i + incsOf i accs) ∧
+    (∀ i, (cellAt (applyAll h accs) i).map (fun c => (c.kids, c.data)) = (cellAt h i).map (fun c => (c.kids, c.data)))
+  | [], h, _, _ => by simp [applyAll, incsOf, decsOf]
+  | a :: accs, h, hl, hd => by
+    have hlive := hl a List.mem_cons_self
+    have hstep_live : ∀ j, (cellAt (Acc.apply h a) j).isSome = (cellAt h j).isSome := by
+      intro j
+      cases a with
+      | inc i => exact isSome_setRc h i j (· + 1)
+      | dec i => exact isSome_setRc h i j (· - 1)
+    have hkd : ∀ j, (cellAt (Acc.apply h a) j).map (fun c => (c.kids, c.data)) = (cellAt h j).map (fun c => (c.kids, c.data)) := by
+      intro j
+      cases a with
+      | inc i => exact cell_retain h (.ptr i) j
+      | dec i =>
+        simp only [Acc.apply, decr]
+        by_cases hji : j = i
+        · subst hji
+          cases hc : cellAt h j with
+          | none => unfold setRc; rw [hc]; simp [hc]
+          | some c => rw [cellAt_setRc_self _ _ _ hc]; simp
+        · rw [cellAt_setRc_ne _ _ _ _ hji]
+    have hrc : ∀ j, rcOf (Acc.apply h a) j + (if a = .dec j then 1 else 0) = rcOf h j + (if a = .inc j then 1 else 0) := by
+      intro j
+      cases a with
+      | inc i =>
+        simp only [Acc.apply, incr, rcOf_setRc]
+        simp only [Acc.id] at hlive
+        by_cases hji : j = i
+        · subst hji; simp [hlive]
+        · have : ¬ i = j := fun e => hji e.symm
+          simp [hji, this]
+      | dec i =>
+        simp only [Acc.apply, decr, rcOf_setRc]
+        simp only [Acc.id] at hlive
+        by_cases hji : j = i
+        · subst hji
+          have := hd j
+          rw [decsOf_cons] at this
+          simp [hlive] at this ⊢; omega
+        · have : ¬ i = j := fun e => hji e.symm
+          simp [hji, this]
+    have ih := no_lost_update accs (Acc.apply h a)
+      (fun b hb => by rw [hstep_live]; exact hl b (List.mem_cons_of_mem _ hb))
+      (fun i => by
+        have h1 := hd i; have h2 := hrc i
+        rw [decsOf_cons] at h1
+        split at h2 <;> split at h2 <;> simp_all <;> omega)
+    refine ⟨fun i => ?_, fun i => ?_⟩
+    · have h1 := ih.1 i; have h2 := hrc i
+      simp only [applyAll, List.foldl_cons] at h1 ⊢
+      rw [incsOf_cons, decsOf_cons]
+      omega
+    · have := ih.2 i
+      simp only [applyAll, List.foldl_cons] at this ⊢
+      rw [this, hkd]
+
+theorem incsOf_perm {a b : List Acc} (hp : a.Perm b) (i : Nat) : incsOf i a = incsOf i b := by
+  unfold incsOf; exact (hp.filter _).length_eq
+
+theorem decsOf_perm {a b : List Acc} (hp : a.Perm b) (i : Nat) : decsOf i a = decsOf i b := by
+  unfold decsOf; exact (hp.filter _).length_eq
+
+/-- `count_interleavings_agree`: two interleavings of the same atomic accesses (any permutation — in
+particular every interleaving of per-thread sequences and their sequential composition) leave every
+cell in the same state. -/
+theorem count_interleavings_agree {accs accs' : List Acc} (hp : accs.Perm accs') (h : Heap D)
+    (hl : ∀ a, a ∈ accs → (cellAt h a.id).isSome = true) (hd : ∀ i, decsOf i accs ≤ rcOf h i) (i : Nat) :
+    cellAt (applyAll h accs) i = cellAt (applyAll h accs') i := by
+  have h1 := no_lost_update accs h hl hd
+  have h2 := no_lost_update accs' h (fun a ha => hl a (hp.mem_iff.mpr ha)) (fun j => by rw [← decsOf_perm hp j]; exact hd j)
+  have hrc : rcOf (applyAll h accs) i = rcOf (applyAll h accs') i := by
+    have a := h1.1 i; have b := h2.1 i
+    rw [← incsOf_perm hp i, ← decsOf_perm hp i] at b
+    omega
+  have hkd : (cellAt (applyAll h accs) i).map (fun c => (c.kids, c.data)) = (cellAt (applyAll h accs') i).map (fun c => (c.kids, c.data)) := by
+    rw [h1.2 i, h2.2 i]
+  unfold rcOf at hrc
+  cases hx : cellAt (applyAll h accs) i with
+  | none =>
+    rw [hx] at hkd
+    cases hy : cellAt (applyAll h accs') i with
+    | none => rfl
+    | some c' => rw [hy] at hkd; simp at hkd
+  | some c =>
+    rw [hx] at hkd hrc
+    cases hy : cellAt (applyAll h accs') i with
+    | none => rw [hy] at hkd; simp at hkd
+    | some c' =>
+      rw [hy] at hkd hrc
+      simp at hkd hrc
+      cases c; cases c'
+      simp_all
+
 end TsVerif.C08
